@@ -54,8 +54,15 @@ type sLeaser struct {
 	setCIDs     []string
 	postAcquire int
 	warmup      func(call string) (handled bool, info litefs.PrimaryInfo, err error) // iterations before the one under test
+	ttl         time.Duration                                                        // TTL of the lease it hands out (default 3 s)
 }
 
+func (l *sLeaser) leaseTTL() time.Duration {
+	if l.ttl > 0 {
+		return l.ttl
+	}
+	return 3 * time.Second
+}
 func (l *sLeaser) Close() error         { return nil }
 func (l *sLeaser) Type() string         { return "script" }
 func (l *sLeaser) Hostname() string     { return "node" }
@@ -146,7 +153,7 @@ func (l *sLeaser) Acquire(ctx context.Context) (litefs.Lease, error) {
 	}
 	switch l.in.Acquire {
 	case "ok":
-		l.lease = newLease(3 * time.Second)
+		l.lease = newLease(l.leaseTTL())
 		l.lease.acquired = true
 		return l.lease, nil
 	case "exists":
@@ -162,7 +169,7 @@ func (l *sLeaser) AcquireExisting(ctx context.Context, id string) (litefs.Lease,
 		return nil, errors.New("script: over")
 	}
 	if l.in.Handoff == "ok" {
-		l.lease = newLease(3 * time.Second)
+		l.lease = newLease(l.leaseTTL())
 		l.lease.acquired = true
 		return l.lease, nil
 	}
@@ -446,8 +453,9 @@ type pScript struct {
 	Then      string   `json:"then,omitempty"`  // a second event 300 ms (or ThenAfter ms) after the first: demote shutdown
 	ThenAfter int      `json:"then_after_ms,omitempty"`
 	Storm     int      `json:"storm_ms,omitempty"` // the handoff request is repeated every so many ms for 5 s
-	Model     string   `json:"model"`       // the model's event list
-	WantEnd   int      `json:"want_end_ms"` // model: ms after the last successful renewal at which the role ends (0: not by renewal)
+	TTL       int      `json:"ttl_ms,omitempty"`   // the lease's TTL (default 3000)
+	Model     string   `json:"model"`              // the model's event list
+	WantEnd   int      `json:"want_end_ms"`        // model: ms after the last successful renewal at which the role ends (0: not by renewal)
 }
 
 func runPrimary(c *common.Ctx, cf *common.CaseFile, sc pScript, root string, idx int, wg *sync.WaitGroup, mu *sync.Mutex) {
@@ -456,7 +464,10 @@ func runPrimary(c *common.Ctx, cf *common.CaseFile, sc pScript, root string, idx
 	_ = os.MkdirAll(dir, 0o755)
 	defer os.RemoveAll(dir)
 	_ = os.WriteFile(filepath.Join(dir, "clusterid"), []byte(cidA+"\n"), 0o644)
-	l := &sLeaser{in: iterIn{Candidate: true, LocalCID: true, CID: "equal", Handoff: "none", Info1: "absent", Acquire: "ok", Info2: "absent"}, testAt: 1, url: "http://self.invalid:1"}
+	if sc.TTL == 0 {
+		sc.TTL = 3000
+	}
+	l := &sLeaser{in: iterIn{Candidate: true, LocalCID: true, CID: "equal", Handoff: "none", Info1: "absent", Acquire: "ok", Info2: "absent"}, testAt: 1, url: "http://self.invalid:1", ttl: time.Duration(sc.TTL) * time.Millisecond}
 	s := litefs.NewStore(dir, true)
 	s.Leaser = l
 	s.Client = &sClient{clusterID: cidA}
@@ -551,7 +562,7 @@ func runPrimary(c *common.Ctx, cf *common.CaseFile, sc pScript, root string, idx
 	}
 	// watch the role
 	end := time.Time{}
-	limit := time.Now().Add(6 * time.Second)
+	limit := time.Now().Add(time.Duration(sc.TTL)*time.Millisecond + 3*time.Second)
 	for time.Now().Before(limit) {
 		if !s.IsPrimary() {
 			end = time.Now()
@@ -608,12 +619,12 @@ func runPrimary(c *common.Ctx, cf *common.CaseFile, sc pScript, root string, idx
 	}
 	if sc.WantEnd > 0 {
 		if end.IsZero() {
-			c.Violate(key+":still-primary", fmt.Sprintf("the node is still primary %.1fs after its last successful renewal (TTL 3s, renewals failing)", time.Since(lastOK).Seconds()), rep)
+			c.Violate(key+":still-primary", fmt.Sprintf("the node is still primary %.1fs after its last successful renewal (TTL %d ms, renewals failing)", time.Since(lastOK).Seconds(), sc.TTL), rep)
 		} else {
 			got := int(end.Sub(lastOK).Milliseconds())
 			rep["end_ms_after_last_renewal"] = got
-			if got > sc.WantEnd+700 {
-				c.Violate(key+":late", fmt.Sprintf("the node stayed primary for %d ms after its last successful renewal; the loop's own arithmetic gives %d ms (TTL 3000 ms)", got, sc.WantEnd), rep)
+			if got > sc.WantEnd+400 {
+				c.Violate(key+":late", fmt.Sprintf("the node stayed primary for %d ms after its last successful renewal; it has to leave after %d ms (TTL %d ms: the lease runs out then)", got, sc.WantEnd, sc.TTL), rep)
 			}
 			if got < sc.WantEnd-300 {
 				c.Count("primary_left_early", 1)
@@ -624,7 +635,7 @@ func runPrimary(c *common.Ctx, cf *common.CaseFile, sc pScript, root string, idx
 	if closed {
 		cl = 1
 	}
-	cf.Add(fmt.Sprintf("(3000, [%s], %s)", sc.Model, common.CoqNList([]uint64{uint64(exit), uint64(cl)})), rep)
+	cf.Add(fmt.Sprintf("(%d, [%s], %s)", sc.TTL, sc.Model, common.CoqNList([]uint64{uint64(exit), uint64(cl)})), rep)
 }
 
 // ---------- a real cluster on the TTL lease service: roles against the service's own record ----------
@@ -811,8 +822,13 @@ func Run(c *common.Ctx) error {
 	scripts := []pScript{
 		{Name: "renew-expired-first", Renew: []string{"expired"}, Model: "PRenewExpired", WantEnd: 1500},
 		{Name: "renew-ok-then-expired", Renew: []string{"ok", "expired"}, Model: "PRenewOk; PRenewExpired", WantEnd: 1500},
-		{Name: "renew-errors", Renew: []string{"err", "err", "err", "err"}, Model: "PRenewErr; PRenewErr; PRenewErr", WantEnd: 3500},
-		{Name: "renew-ok-then-errors", Renew: []string{"ok", "err", "err", "err"}, Model: "PRenewOk; PRenewErr; PRenewErr; PRenewErr", WantEnd: 3500},
+		{Name: "renew-errors", Renew: []string{"err", "err", "err", "err"}, Model: "PRenewErr; PRenewErr; PRenewErr", WantEnd: 3000},
+		// TTLs that are not a multiple of the retry interval: the role is held for what is left of the TTL, not for another full second
+		{Name: "renew-errors-ttl-2200", TTL: 2200, Renew: []string{"err", "err", "err", "err"}, Model: "PRenewErr; PRenewErr; PRenewErr", WantEnd: 2200},
+		// a long TTL: the retries come every second all the way (a retry schedule that backs off would jump over the deadline)
+		{Name: "renew-errors-ttl-10000", TTL: 10000, Renew: []string{"err", "err", "err", "err", "err", "err", "err", "err", "err", "err", "err", "err"}, Model: "PRenewErr; PRenewErr; PRenewErr; PRenewErr; PRenewErr; PRenewErr", WantEnd: 10000},
+		{Name: "renew-ok-then-errors-ttl-1400", TTL: 1400, Renew: []string{"ok", "err", "err", "err"}, Model: "PRenewOk; PRenewErr; PRenewErr; PRenewErr", WantEnd: 1400},
+		{Name: "renew-ok-then-errors", Renew: []string{"ok", "err", "err", "err"}, Model: "PRenewOk; PRenewErr; PRenewErr; PRenewErr", WantEnd: 3000},
 		{Name: "renew-error-then-ok", Renew: []string{"err", "ok", "ok", "ok", "ok", "ok", "ok", "ok"}, Model: "PRenewErr; PRenewOk; PRenewOk", WantEnd: 0},
 		{Name: "demote", At: 300, Event: "demote", Model: "PDemote"},
 		{Name: "handoff-connected", At: 200, Event: "handoff-connected", Model: "PHandoff true true"},
@@ -833,7 +849,7 @@ func Run(c *common.Ctx) error {
 		// handoff requests keep arriving (each fails: the renewal before passing the lease on errors) while the scheduled
 		// renewals fail too: the requests do not postpone the renewals, the role ends by the loop's own arithmetic
 		{Name: "handoff-storm-renewals-failing", Renew: []string{"err", "err", "err", "err", "err", "err", "err", "err", "err", "err", "err", "err", "err", "err", "err", "err", "err", "err", "err", "err", "err", "err", "err", "err", "err", "err", "err", "err", "err", "err", "err", "err", "err", "err", "err", "err", "err", "err", "err", "err"},
-			At: 100, Event: "handoff-connected", Storm: 300, Model: "PHandoff true false; PRenewErr; PHandoff true false; PRenewErr", WantEnd: 3500},
+			At: 100, Event: "handoff-connected", Storm: 300, Model: "PHandoff true false; PRenewErr; PHandoff true false; PRenewErr", WantEnd: 3000},
 		{Name: "handoff-refused-then-expired", Renew: []string{"ok", "expired"}, At: 200, Event: "handoff-refused", Model: "PHandoff true false; PRenewOk; PRenewExpired", WantEnd: 1500},
 	}
 	var wg sync.WaitGroup
@@ -901,6 +917,9 @@ func Run(c *common.Ctx) error {
 	}
 	foreignStream(c, root)
 	postAcquireFailure(c, root)
+	if err := handoffPingPong(c, root); err != nil {
+		return err
+	}
 	if err := consulScenarios(c, c.Rng.Fork()); err != nil {
 		return fmt.Errorf("consul: %w", err)
 	}
